@@ -148,11 +148,82 @@ macro_rules! parts {
     }};
 }
 
+/// "With scrollback limit L": however the builder was told - every order and repetition
+/// of its calls (two terminals from one builder included).
+fn builder_orders(ctx: &Ctx, rep: &mut Report) {
+    use super::common::{build_by, builder_sequences};
+    let seqs = builder_sequences();
+    let mut n = 0u64;
+    for (calls, size, limit) in &seqs {
+        let r = crate::engine::guarded(|| {
+            for which in 0..2 {
+                let mut vt = build_by(calls);
+                if which == 1 {
+                    // the same call sequence, but the terminal is the second one built
+                    let mut b = avt::Vt::builder();
+                    for c in calls {
+                        match c {
+                            super::common::BCall::Size(a, r) => {
+                                b.size(*a, *r);
+                            }
+                            super::common::BCall::Limit(l) => {
+                                b.scrollback_limit(*l);
+                            }
+                        }
+                    }
+                    let _first = b.build();
+                    vt = b.build();
+                }
+                if vt.size() != *size {
+                    return Some(format!("size() = {:?}, the builder was told {:?}", vt.size(), size));
+                }
+                let rows = size.1;
+                for k in 0..3 {
+                    let feed = "\n".repeat(rows + 40);
+                    let _ = vt.feed_str(&feed);
+                    let len = vt.lines().len();
+                    match limit {
+                        Some(l) => {
+                            let bound = rows + l + l / 10;
+                            if len > bound || (*l == 0 && len != rows) {
+                                return Some(format!("after call {} lines().len() = {} > rows {} + L {} + L/10", k + 1, len, rows, l));
+                            }
+                        }
+                        None => {
+                            // no limit given: nothing is ever trimmed (the first rows-1 feeds only move the cursor)
+                            let want = rows + (rows + 40) * (k + 1) - (rows - 1);
+                            if len != want {
+                                return Some(format!("unlimited scrollback: lines().len() = {} after {} line feeds, expected {}", len, (rows + 40) * (k + 1), want));
+                            }
+                        }
+                    }
+                }
+            }
+            None
+        });
+        n += 2;
+        let bad = match r {
+            Ok(None) => None,
+            Ok(Some(d)) => Some(d),
+            Err(p) => Some(format!("panic: {}", p)),
+        };
+        if let Some(d) = bad {
+            emit_violation(ctx, rep, "C13", serde_json::json!({"part":"builder-call-orders","builder_calls":format!("{:?}", calls),"oracle":"retention-bound","observed":d}));
+            break;
+        }
+    }
+    rep.evaluations += n;
+    rep.traces_validated += n;
+    rep.parts.push(serde_json::json!({"part":"builder-call-orders","call_sequences":seqs.len(),"terminals":n}));
+    println!("part builder-call-orders: {} call sequences, {} terminals", seqs.len(), n);
+}
+
 pub fn run(ctx: &Ctx) -> Report {
     let mut rep = Report::new();
     let p = parts!(ctx.tier);
     run_part(ctx, &mut rep, &p);
-    rep.rule = "BFS over histories of scroll-producing feeds (drained, dropped, partially drained, per-char) and resizes for limits 0,1,2,3,9,10,11,20; after every feed_str/resize call lines().len() is compared with rows+L+floor(L/10) and with rows on the alternate screen; non-trivial = calls that return with scrollback present".into();
+    builder_orders(ctx, &mut rep);
+    rep.rule = "BFS over histories of scroll-producing feeds (drained, dropped, partially drained, per-char) and resizes for limits 0,1,2,3,9,10,11,20; after every feed_str/resize call lines().len() is compared with rows+L+floor(L/10) and with rows on the alternate screen; non-trivial = calls that return with scrollback present; builder-call-orders: every sequence of <= 3 Builder calls over two sizes and three limits (156 sequences, first and second terminal built), then three scrolling calls under the bound of the limit last given".into();
     rep.assumptions = vec![
         "alternate-screen showing is tracked syntactically from the commands (alphabet has no truncated sequences)".into(),
         "the bound is not required after feed() (no Changes value is returned); it is checked at the next feed_str/resize".into(),
@@ -161,6 +232,11 @@ pub fn run(ctx: &Ctx) -> Report {
 }
 
 pub fn replay(ctx: &Ctx, v: &Value) -> bool {
+    if v["part"] == "builder-call-orders" {
+        let mut rep = Report::new();
+        builder_orders(ctx, &mut rep);
+        return rep.violations > 0;
+    }
     let tier = if v["tier"] == "thorough" { Tier::Thorough } else { Tier::Quick };
     let p = parts!(tier);
     replay_part(ctx, &p, v)
